@@ -1,9 +1,331 @@
-//! C16a: golden durable states.
-use crate::exec::Exec;
+//! C16a: golden durable states. `make-fixtures` writes, with the tree it is
+//! built against (the reference version), raw key/value dumps for every
+//! metric together with the expected items and recorded exhaustive queries.
+//! They are committed under /verif/fixtures/golden/ and loaded with raw
+//! `Bytes` puts: "the new binary restarts on the old binary's disk".
 
-pub fn load_fixture(_ex: &mut Exec<'_>, _name: &str) -> Result<(), String> {
-    Err("not implemented".into())
+use std::collections::BTreeMap;
+use std::num::NonZeroUsize;
+
+use arroy::Reader;
+use serde::{Deserialize, Serialize};
+
+use crate::exec::{Exec, Stop};
+use crate::metric::{Metric, ALL_METRICS};
+use crate::model::{IndexModel, Staleness};
+use crate::plan::{Fault, IndexCfg, Plan, Profile, Step, VecSpec};
+use crate::query;
+use crate::util::{hex, Rng};
+use crate::with_metric;
+
+pub const DIR: &str = "/verif/fixtures/golden";
+
+#[derive(Serialize, Deserialize, Clone, Debug)]
+pub struct FxIndex {
+    pub index: u16,
+    pub metric: Metric,
+    pub dim: usize,
+    /// "Built" | "Stale" | "NeverBuilt"
+    pub state: String,
+    /// id -> f32 bit patterns of the vector the store must return
+    pub items: BTreeMap<u32, Vec<u32>>,
+    pub cap: usize,
 }
 
-pub fn maybe_attach(_p: &mut crate::plan::Plan, _seed: u64) {}
-pub fn make_main() -> i32 { 2 }
+#[derive(Serialize, Deserialize, Clone, Debug)]
+pub struct FxQuery {
+    pub index: u16,
+    pub vector: Vec<u32>,
+    pub count: usize,
+    /// (id, distance bits)
+    pub results: Vec<(u32, u32)>,
+}
+
+#[derive(Serialize, Deserialize, Clone, Debug)]
+pub struct Fixture {
+    pub name: String,
+    pub written_by: String,
+    pub indexes: Vec<FxIndex>,
+    /// (key hex, value hex) in key order
+    pub dump: Vec<(String, String)>,
+    pub queries: Vec<FxQuery>,
+    pub features: Vec<String>,
+}
+
+fn unhex(s: &str) -> Vec<u8> {
+    (0..s.len() / 2).map(|i| u8::from_str_radix(&s[2 * i..2 * i + 2], 16).unwrap()).collect()
+}
+
+pub fn names() -> Vec<String> {
+    ALL_METRICS.iter().map(|m| format!("{m:?}").to_lowercase()).collect()
+}
+
+pub fn read(name: &str) -> Result<Fixture, String> {
+    let p = format!("{DIR}/{name}.json");
+    let b = std::fs::read(&p).map_err(|e| format!("{p}: {e}"))?;
+    serde_json::from_slice(&b).map_err(|e| format!("{p}: {e}"))
+}
+
+/// Attach a fixture to 1 in 4 plans of the C16 check and regenerate the history for its indexes.
+pub fn maybe_attach(p: &mut Plan, seed: u64) {
+    if p.focus != "C16" {
+        return;
+    }
+    let mut r = Rng::new(seed ^ 0xF1C5);
+    if !r.chance(1, 4) {
+        return;
+    }
+    let all = names();
+    let name = &all[r.below(all.len() as u64) as usize];
+    let Ok(fx) = read(name) else { return };
+    let forced: Vec<IndexCfg> = fx.indexes.iter().map(|i| IndexCfg { index: i.index, metric: i.metric, dim: i.dim }).collect();
+    let mut q = crate::plan::gen_history_with(seed, "C16", false, Some(forced));
+    q.fixture = Some(name.clone());
+    // small id universe so that the continuation touches the fixture's items
+    *p = q;
+}
+
+pub fn load_fixture(ex: &mut Exec<'_>, name: &str) -> Result<(), String> {
+    let fx = read(name)?;
+    if fx.indexes.len() != ex.world.indexes.len() {
+        return Err("plan and fixture disagree on the indexes".into());
+    }
+    let dump: crate::decode::Dump = fx.dump.iter().map(|(k, v)| (unhex(k), unhex(v))).collect();
+    {
+        let db = ex.db();
+        let wtxn = ex.wtxn_mut();
+        for (k, v) in &dump {
+            db.put(wtxn, k, v).map_err(|e| e.to_string())?;
+        }
+    }
+    for (m, f) in ex.world.indexes.iter_mut().zip(&fx.indexes) {
+        if m.index != f.index || m.dim != f.dim {
+            return Err("plan and fixture disagree on an index".into());
+        }
+        m.metric = f.metric;
+        m.items = f.items.iter().map(|(id, bits)| (*id, bits.iter().map(|b| f32::from_bits(*b)).collect())).collect();
+        m.state = match f.state.as_str() {
+            "Built" => Staleness::Built,
+            "Stale" => Staleness::Stale,
+            _ => Staleness::NeverBuilt,
+        };
+        m.caps_used = [f.cap].into_iter().collect();
+        m.builds = 1;
+    }
+    ex.mark_from_fixture();
+    ex.out.stats.probe("fixture_loaded");
+    let r = (|| -> Result<(), Stop> {
+        ex.do_commit()?;
+        if ex.committed_dump != dump {
+            ex.report(&["C16"], "fixture_roundtrip", "the raw fixture does not read back byte for byte".into())?;
+        }
+        // the recorded queries: same neighbours and distances
+        for q in &fx.queries {
+            let ix = ex.world.indexes.iter().position(|m| m.index == q.index).unwrap();
+            let im = ex.world.indexes[ix].clone();
+            let v: Vec<f32> = q.vector.iter().map(|b| f32::from_bits(*b)).collect();
+            let db = ex.db();
+            let env = ex.env().clone();
+            let rtxn = env.read_txn().unwrap();
+            let got: Result<Vec<(u32, f32)>, String> = with_metric!(im.metric, D, {
+                match Reader::<D>::open(&rtxn, im.index, query::typed::<D>(db)) {
+                    Ok(reader) => {
+                        let mut qb = reader.nns(q.count);
+                        qb.search_k(NonZeroUsize::new(usize::MAX).unwrap());
+                        qb.by_vector(&rtxn, &v).map_err(|e| e.to_string())
+                    }
+                    Err(e) => Err(format!("open: {e}")),
+                }
+            });
+            drop(rtxn);
+            match got {
+                Err(e) => ex.report(&["C16"], "fixture_query_failed", format!("fixture {name} index {}: {e}", q.index))?,
+                Ok(res) => {
+                    let ok = res.len() == q.results.len()
+                        && res.iter().zip(&q.results).all(|((id, d), (eid, ebits))| {
+                            let e = f32::from_bits(*ebits);
+                            let close = (d - e).abs() <= 1e-5 * e.abs().max(1.0);
+                            close && (id == eid || {
+                                // ties may be ordered either way: the other id must sit at the same recorded distance
+                                q.results.iter().any(|(oid, ob)| oid == id && (f32::from_bits(*ob) - e).abs() <= 1e-5 * e.abs().max(1.0))
+                            })
+                        });
+                    if !ok {
+                        ex.report(
+                            &["C16"],
+                            "fixture_query_differs",
+                            format!("fixture {name} index {} count {}: recorded {:?}, got {:?}", q.index, q.count, q.results.iter().take(5).map(|(i, b)| (*i, f32::from_bits(*b))).collect::<Vec<_>>(), res.iter().take(5).collect::<Vec<_>>()),
+                        )?;
+                    }
+                }
+            }
+        }
+        Ok(())
+    })();
+    match r {
+        Ok(()) | Err(Stop::Violation) => Ok(()),
+        Err(Stop::Unevaluable(s)) => Err(s),
+    }
+}
+
+// ------------------------------------------------------------------ generation (run once, with the reference tree)
+
+pub fn make_main() -> i32 {
+    crate::init_process();
+    std::fs::create_dir_all(DIR).unwrap();
+    for (mi, metric) in ALL_METRICS.iter().enumerate() {
+        let name = format!("{metric:?}").to_lowercase();
+        // search a seed whose forest shows the features the property names
+        let mut best: Option<Fixture> = None;
+        for attempt in 0..200u64 {
+            let fx = make_one(*metric, &name, 1000 * mi as u64 + attempt);
+            let Some(fx) = fx else { continue };
+            let want = ["splits", "buckets", "single_item_child", "pending_updates", "three_indexes"];
+            if want.iter().all(|w| fx.features.iter().any(|f| f == w)) {
+                best = Some(fx);
+                break;
+            }
+            if best.as_ref().is_none_or(|b| b.features.len() < fx.features.len()) {
+                best = Some(fx);
+            }
+        }
+        let fx = best.expect("fixture");
+        println!("{name}: {} keys, features {:?}", fx.dump.len(), fx.features);
+        std::fs::write(format!("{DIR}/{name}.json"), serde_json::to_string(&fx).unwrap()).unwrap();
+    }
+    0
+}
+
+fn make_one(metric: Metric, name: &str, seed: u64) -> Option<Fixture> {
+    let mut r = Rng::new(seed);
+    let dim = if metric.is_bq() { *r.pick(&[5usize, 70]) } else { *r.pick(&[3usize, 5, 33]) };
+    let indexes = vec![
+        IndexCfg { index: 0, metric, dim },
+        IndexCfg { index: 7, metric, dim },
+        IndexCfg { index: 65535, metric, dim },
+    ];
+    let mut steps = Vec::new();
+    let profile = if metric.is_bq() { Profile::Uniform } else { Profile::Lattice };
+    let add = |steps: &mut Vec<Step>, r: &mut Rng, ix: usize, id: u32| {
+        steps.push(Step::Add { ix, id, v: VecSpec::Gen { profile, seed: r.next() } });
+    };
+    // index 0: a forest with splits, built incrementally (insert + delete + re-build)
+    for id in 0..30 {
+        add(&mut steps, &mut r, 0, id);
+    }
+    steps.push(Step::Build { ix: 0, n_trees: Some(3), split_after: Some(3), mem: None, seed: r.next(), fault: Fault::None });
+    for id in [3u32, 11, 17, 23] {
+        steps.push(Step::Del { ix: 0, id });
+    }
+    for id in 30..36 {
+        add(&mut steps, &mut r, 0, id);
+    }
+    steps.push(Step::Build { ix: 0, n_trees: Some(3), split_after: Some(3), mem: None, seed: r.next(), fault: Fault::None });
+    // index 7: fits in one bucket
+    for id in [0u32, 5, 4_000_000_000] {
+        add(&mut steps, &mut r, 1, id);
+    }
+    steps.push(Step::Build { ix: 1, n_trees: None, split_after: Some(3), mem: None, seed: r.next(), fault: Fault::None });
+    // index 65535: built, then pending updates left behind
+    for id in 0..12 {
+        add(&mut steps, &mut r, 2, id * 3);
+    }
+    steps.push(Step::Build { ix: 2, n_trees: Some(2), split_after: Some(3), mem: None, seed: r.next(), fault: Fault::None });
+    add(&mut steps, &mut r, 2, 100);
+    steps.push(Step::Del { ix: 2, id: 6 });
+    steps.push(Step::Commit);
+    let mut plan = crate::plan::gen_history(seed, "C16", false);
+    plan.cfg.indexes = indexes;
+    plan.cfg.pool = 1;
+    plan.cfg.reuse_writer = false;
+    plan.steps = steps;
+    plan.fixture = None;
+    // execute with all invariants on; keep the environment to read the dump
+    let workdir = crate::driver::workdir_base().join("fx");
+    let ts = crate::turnstile::Turnstile::new(1, "random", 1);
+    ts.adopt_running(crate::turnstile::WRITER);
+    let mut ex = Exec::new(&plan, &workdir, Some(ts));
+    crate::ctx::set_active(Some(ex.ctx.clone()));
+    ex.focus_any = true;
+    let res = ex.run_steps();
+    let ok = res.is_ok() && ex.out.violation.is_none();
+    let mut fx = None;
+    if ok {
+        let dump = ex.committed_dump.clone();
+        let world = ex.committed.clone();
+        let dec = crate::decode::decode_dump(&dump, &|i| world.metric_of(i)).ok()?;
+        let mut features = vec!["three_indexes".to_string()];
+        for di in dec.values() {
+            for n in di.trees.values() {
+                match n {
+                    crate::decode::TreeNode::Bucket(b) => {
+                        features.push("buckets".into());
+                        if b.is_empty() {
+                            features.push("empty_bucket".into());
+                        }
+                    }
+                    crate::decode::TreeNode::Split { left, right, normal } => {
+                        features.push("splits".into());
+                        if left.0 == crate::decode::KIND_ITEM || right.0 == crate::decode::KIND_ITEM {
+                            features.push("single_item_child".into());
+                        }
+                        if normal.iter().all(|b| *b == 0) {
+                            features.push("zero_normal".into());
+                        }
+                    }
+                }
+            }
+            if !di.updated.is_empty() {
+                features.push("pending_updates".into());
+            }
+        }
+        features.sort();
+        features.dedup();
+        // recorded exhaustive queries on the built indexes
+        let mut queries = Vec::new();
+        let env = ex.env().clone();
+        let db = ex.db();
+        let rtxn = env.read_txn().unwrap();
+        for im in &world.indexes {
+            if im.state != Staleness::Built {
+                continue;
+            }
+            let qs = query::query_vectors(im, 4, seed ^ 0x51, profile, plan.cfg.data_seed);
+            for (qi, q) in qs.iter().enumerate() {
+                let count = [1usize, 4, im.items.len(), 100][qi % 4];
+                let res: Vec<(u32, f32)> = with_metric!(im.metric, D, {
+                    let reader = Reader::<D>::open(&rtxn, im.index, query::typed::<D>(db)).ok()?;
+                    let mut qb = reader.nns(count);
+                    qb.search_k(NonZeroUsize::new(usize::MAX).unwrap());
+                    qb.by_vector(&rtxn, q).ok()?
+                });
+                queries.push(FxQuery { index: im.index, vector: q.iter().map(|x| x.to_bits()).collect(), count, results: res.iter().map(|(i, d)| (*i, d.to_bits())).collect() });
+            }
+        }
+        drop(rtxn);
+        fx = Some(Fixture {
+            name: name.to_string(),
+            written_by: format!("arroy {} at the pinned reference tree (+ fix: commits, which do not touch the layout)", include_str!("/repo/Cargo.toml").lines().find(|l| l.starts_with("version")).unwrap_or("")),
+            indexes: world
+                .indexes
+                .iter()
+                .map(|m: &IndexModel| FxIndex {
+                    index: m.index,
+                    metric: m.metric,
+                    dim: m.dim,
+                    state: format!("{:?}", m.state),
+                    items: m.items.iter().map(|(id, v)| (*id, v.iter().map(|x| x.to_bits()).collect())).collect(),
+                    cap: 3,
+                })
+                .collect(),
+            dump: dump.iter().map(|(k, v)| (hex(k), hex(v))).collect(),
+            queries,
+            features,
+        });
+    }
+    let _ = ex.finish();
+    crate::ctx::set_active(None);
+    crate::turnstile::release_thread();
+    let _ = std::fs::remove_dir_all(&workdir);
+    fx
+}
